@@ -248,9 +248,46 @@ def small_specs() -> list[Spec]:
     return out
 
 
+def run_huge_announced(ctx: Ctx, rec: Recorder) -> None:
+    """Large downloads that die early: a Content-Length around urllib3's internal size thresholds (2**28: the piece size
+    of its assembling loop, 2**31: the C int limit that selects that loop on some TLS backends), a few bytes of body, then
+    EOF.  Only the announced number is large; every read pattern must still report the short body, with the stdlib ssl
+    backend and with pyOpenSSL injected (the flag is global and switches the reading strategy of plain http too)."""
+    rng = ctx.rng
+    backends = ["stdlib", "pyopenssl"]
+    for backend in backends:
+        pyo = None
+        if backend == "pyopenssl":
+            try:
+                import urllib3.contrib.pyopenssl as pyo  # type: ignore[no-redef]
+
+                pyo.inject_into_urllib3()
+            except Exception:  # noqa: BLE001
+                rec.count("pyopenssl_not_available")
+                continue
+        try:
+            for announced in (2**28, 2**28 + 1, 2**31 - 1, 2**31, 2**31 + 11, 3 * 2**30):  # (1 TiB makes CPython itself raise MemoryError for whole-body reads)
+                for sent in (0, 10, 5000):
+                    spec = Spec(sent, "identity", "cl", [], "", "whole" if sent != 5000 else 7, True)
+                    body = respgen.payload(sent)
+                    wb = b"HTTP/1.1 200 OK\r\nContent-Length: %d\r\nContent-Type: application/octet-stream\r\n\r\n" % announced + body
+                    dmg = Damage("cut-huge-announced", sent, MUST, True, f"announced={announced};backend={backend}")
+                    for pname, ops in patterns(spec) + [("readn-then-read", [["readn", 1000], ["read"]])]:
+                        if pname in ("readn-1", "stream-1", "stream-2") and sent == 5000:
+                            continue
+                        rec.case(["huge", backend, announced, sent, pname])
+                        rec.mon("huge_announced")
+                        run_case(rec, spec, dmg, wb, pname, ops, rng)
+        finally:
+            if pyo is not None:
+                pyo.extract_from_urllib3()
+
+
 def run_shard(ctx: Ctx, rec: Recorder) -> None:
     rng = ctx.rng
     idx = 0
+    if ctx.shard == 0:
+        run_huge_announced(ctx, rec)
     specs = small_specs()
     stride = ctx.pick(6, 1)
     for spec in specs:
